@@ -1,6 +1,7 @@
 """Sidecar JSON file storing a skeleton to create stubs and patch containers."""
 from __future__ import annotations
 
+import re
 from copy import deepcopy
 from shutil import copyfile
 
@@ -156,9 +157,18 @@ class IH5MFRecord(IH5Record):
     # Override to also remove the manifest files
     @classmethod
     def delete_files(cls, record: Path):
-        for file in cls.find_files(record):
+        record = Path(record)
+        files = cls.find_files(record)  # (this also checks the record name)
+        for file in files:
             mf_path = cls._manifest_filepath(str(file))
             if mf_path.is_file():
+                mf_path.unlink()
+        # manifests that were kept after their container was removed
+        pat = re.escape(record.name)
+        pat += f"({re.escape(cls._PATCH_INFIX)}[^/]*)?"
+        pat += re.escape(f"{cls._FILE_EXT}{cls.MANIFEST_EXT}")
+        for mf_path in record.parent.glob(f"{record.name}*{cls.MANIFEST_EXT}"):
+            if re.fullmatch(pat, mf_path.name) and mf_path.is_file():
                 mf_path.unlink()
         super().delete_files(record)
 
